@@ -11,6 +11,7 @@ sys.path.insert(0, str(Path(__file__).resolve().parent))
 import core  # noqa: E402
 import gen_template as G  # noqa: E402
 import c05  # noqa: E402
+import mutate as M  # noqa: E402
 
 from openjd.model import (  # noqa: E402
     DecodeValidationError, create_job, decode_environment_template, decode_job_template, model_to_object, parse_model,
@@ -36,7 +37,7 @@ def is_plain(x):
 
 def as_number(x):
     if isinstance(x, bool):
-        return None
+        return Decimal(int(x))      # Python's bool is the int subclass {0, 1}: a lax int / float field reads it so
     if isinstance(x, (int, float)):
         return Decimal(str(x))
     if isinstance(x, str):
@@ -59,6 +60,11 @@ def equiv(a, b):
         return len(a) == len(b) and all(equiv(x, y) for x, y in zip(a, b))
     if type(a) is type(b) and a == b:
         return True
+    # a non-strict string field stringifies any scalar it is given: bool is Python's 0/1 subclass of int and
+    # comes out as str(True) / str(False) (DESIGN.md 0.3: read as part of "numeric formatting")
+    for x, y in ((a, b), (b, a)):
+        if isinstance(x, bool) and isinstance(y, str):
+            return y == str(x)
     na, nb = as_number(a), as_number(b)
     return na is not None and nb is not None and na == nb
 
@@ -122,10 +128,29 @@ class C17(core.PropBase):
                 yield {"kind": "jobobj", "doc": doc, "vals": c05.values_with_refs_text(rng, doc)}
             else:
                 yield {"kind": "job", "doc": G.gen_job_template(rng, full=i % 3 == 0)}
+        # documents off the generator's beaten track: whatever the implementation ACCEPTS must be reproduced.
+        # Rule-typed mutants (most are rejected by both sides and then cost nothing; boundary mutants stay
+        # valid), and every key spelled with its Python attribute name instead of the schema's name
+        for i in range(n // 2):
+            env = i % 4 == 3
+            doc = G.gen_env_template(rng, full=i % 2 == 0) if env else G.gen_job_template(rng, full=i % 3 == 0)
+            applied = M.mutate(rng, doc, n=1 if i % 5 else 2)
+            yield {"kind": "env" if env else "job", "doc": doc, "mut": [a[0] for a in applied]}
+        for i in range(n // 10):
+            env = i % 2 == 1
+            doc = G.gen_env_template(rng, full=True) if env else G.gen_job_template(rng, full=True)
+            k = i % 3
+            if k == 0:
+                doc["schemaStr"] = doc.pop("$schema", "x")
+            elif k == 1:
+                doc["schemaStr"] = "y"
+            else:
+                doc["specification_version"] = doc.pop("specificationVersion")
+            yield {"kind": "env" if env else "job", "doc": doc, "mut": ["python-attribute-name"]}
 
     def rule(self, tier):
         return ("generated job templates (one in three with every optional field incl. $schema), environment templates, and Jobs created from generated "
-                "templates with accepted values; each: export is plain data, JSON and YAML dump/load fixpoints, export equivalent to the source document up to "
+                "templates with accepted values; rule-typed mutants of generated templates and templates with a key under its Python attribute name (only those the implementation accepts count); each: export is plain data, JSON and YAML dump/load fixpoints, export equivalent to the source document up to "
                 "numeric formatting, decode(export) == model (Jobs: parse_model(Job, export) == job), and export == the Coq export model. distinct = by document")
 
     def samples(self, tier, seed):
@@ -169,6 +194,8 @@ class C17(core.PropBase):
             try:
                 m = dec(template=G.deep(case["doc"]))
             except DecodeValidationError:
+                if "mut" in case:
+                    case["_rejected"] = True     # whether a mutant SHOULD be accepted is C01/C02's business
                 return ["skip", "template-rejected"]
             obj = model_to_object(model=m)
             try:
@@ -193,6 +220,7 @@ class C17(core.PropBase):
         for c in chunk:
             c.pop("_job", None)
             c.pop("_io", None)
+            c.pop("_rejected", None)
         for m in res.get("mismatches", []):
             m["case"].pop("_job", None)
             m["case"].pop("_io", None)
@@ -205,6 +233,8 @@ class C17(core.PropBase):
             o, ok = replies[0]
             return ["ok", {"obj": renorm(core.from_wire(o)), "plain": True, "json": True, "yaml": True, "redecode": ok == "true"}]
         r = replies[0]
+        if case.pop("_rejected", False):
+            return ["skip", "template-rejected"]
         if r[0] != "ok":
             if r[1] == "ValueError":
                 return ["skip", "template-rejected"]
@@ -213,7 +243,7 @@ class C17(core.PropBase):
         return ["ok", {"obj": renorm(core.from_wire(o)), "plain": True, "json": True, "yaml": True, "faithful": True, "redecode": ok == "true"}]
 
     def classify_case(self, case, obs):
-        return [case["kind"] + ":" + (obs[0] if obs[0] != "skip" else "skip:" + obs[1])]
+        return [case["kind"] + (":mutant" if "mut" in case else "") + ":" + (obs[0] if obs[0] != "skip" else "skip:" + obs[1])]
 
     def still_fails(self, case):
         case = {k: v for k, v in case.items() if not k.startswith("_")}
